@@ -157,6 +157,17 @@ def run(ctx):
         # no PC write between the test and the fetch
         between = (rl.reachable(equal_t, avoid={fetch_b}) & _reaching(rl, fetch_b, avoid={nb})) | {fetch_b}
         pcw = [w for w in eff.site_writes(rl, 1, between) if w[2][:2] == ("state", "pc") or w[2] == ("state",)]
+        # a PC write in the fetch block itself is harmless when it comes after the fetch statement
+        fi = _stmt_index(rl, fetch_b, fdefs[0][3])
+        def _after_fetch(w):
+            if w[0] != fetch_b:
+                return False
+            if w[1] != "assign":
+                return True      # the block's terminator (a call) runs after every statement of the block
+            idxs = [i for i, st in enumerate(rl.stmts(fetch_b)) if st["k"] == "assign" and
+                    [e.get("n") for e in st["p"].get("pr", []) if isinstance(e, dict) and "f" in e] == ["state", "pc"]]
+            return bool(idxs) and all(i > fi for i in idxs)
+        pcw = [w for w in pcw if not _after_fetch(w)]
         if rl.dominates(equal_t, fetch_b) and div and not pcw:
             ok = True
             witness = nb
